@@ -1114,6 +1114,47 @@ def _run(chk, K, h, model, quick, hasan=None):
         asan_run.add(cid, cmds, post)
     truns.append(asan_run)
 
+    # ---- block phase: data delivered in blocks through the mem_blocks entry points.  The clock-read guard is a function of the
+    # offset inside the CURRENT block, so every block size must still reach the deadline test (every_block_reads_clock).
+    # Model side: the extracted guard evaluated at the offsets that decide it; implementation: an iterator whose `next` sleeps
+    # 1 ms per block (5000 blocks: the block phase alone takes 5 s), timeout 1 s, block sizes around the 4096 spacing.
+    offs = [0, 1, 4095, 4096, 4097, 8191, 8192]
+    cl, _ = vlib.run_lines(model, ["lim clock %d" % i_ for i_ in offs], timeout=120)
+    reads = {i_: (a_ == "read") for i_, a_ in zip(offs, cl)}
+    bsizes = [64, 1024, 4095, 4096, 4097, 8192, 65536, 1048576]
+    blind = [sz for sz in bsizes if not any(reads.get(i_) for i_ in offs if i_ < sz)]
+    if blind:
+        chk.violation("model:block_clock", "the guard of the block loop's clock read as the source has it now never holds inside a block of %s bytes "
+                      "(every_block_reads_clock); offsets that read the clock: %s" % (blind, [i_ for i_ in offs if reads.get(i_)]), {"blind_block_sizes": blind},
+                      found_input=False)
+    bruns = []
+    for sz in bsizes:
+        for api in ("rules", "scanner"):
+            cid = "t_blocks_%s_%d" % (api, sz)
+            cmds = ["newcompiler", "add " + R('rule a { strings: $a = "zzzq" condition: $a or filesize >= 0 }'), "getrules", "blocks %d 5000 1000" % sz]
+            cmds += (["scanner", "stimeout 1", "bscan"] if api == "scanner" else ["rbscan 1"]) + ["destroy", "smoke"]
+            r_ = Runner(h, alarm=12)
+
+            def post(lines, ans, cid=cid, cmds=cmds, sz=sz, api=api):
+                count("blocks", (api, sz))
+                c = crashed(lines)
+                sc = scans(lines)
+                if c and not sc:
+                    viol("deadline:blocks", "%s: 5000 blocks of %d bytes, 1 ms apart, timeout 1 s (%s API): %s" % (cid, sz, api, c), cid, cmds[:-2], lines, block_size=sz)
+                    return
+                if not usable(cid, cmds, lines, "blocks"):
+                    return
+                rc, ms = (sc[0].get("rc"), sc[0].get("ms")) if sc else (None, None)
+                if rc != TO or not (980 <= ms <= 1600):
+                    viol("deadline:blocks", "%s: data delivered in 5000 blocks of %d bytes, 1 ms apart (block phase 5 s), timeout 1 s (%s API): rc=%s after %s ms; "
+                         "expected ERROR_SCAN_TIMEOUT between 980 and 1600 ms -- the clock is not looked at while blocks of this size are scanned"
+                         % (cid, sz, api, rc, ms), cid, cmds[:-2], lines, block_size=sz)
+                else:
+                    delays[cid] = {"timeout_ms": 1000, "elapsed_ms": ms, "delay_ms": ms - 1000, "bound_ms": 1600, "rc": rc}
+                    stats["agree"] += 1
+            r_.add(cid, cmds, post)
+            bruns.append(r_)
+
     # ---- the VM's deadline test and the instruction that follows it: the test fires on the 100th, 200th, ... instruction, so which
     # instruction comes next depends on the length of the loop in VM instructions and on how many instructions the preceding
     # rules contribute.  P padding rules (3 or 4 instructions each) in front of one endless loop rule of several shapes (plain:
@@ -1178,7 +1219,7 @@ def _run(chk, K, h, model, quick, hasan=None):
             t.join()
     chk.note(harness_wall_s=round(time.time() - t0, 1))
     tp0 = time.time()
-    pth = [threading.Thread(target=r.run) for r in pruns]
+    pth = [threading.Thread(target=r.run) for r in bruns + pruns]
     for i in range(0, len(pth), 16):
         for t in pth[i:i + 16]:
             t.start()
@@ -1199,7 +1240,7 @@ def _run(chk, K, h, model, quick, hasan=None):
         bad = [(q, a) for q, a in zip(mq, ans) if a.startswith(("unknown", "exception", "usage"))][:3]
         chk.violation("model", "model runner does not answer: %s" % bad, {"stderr": merr[-500:]}, found_input=False)
         return
-    for r in [main] + truns + pruns:
+    for r in [main] + truns + bruns + pruns:
         for cid, (cmds, post) in r.post.items():
             lines = r.out.get(cid)
             if lines is None:
